@@ -17,11 +17,11 @@ var Dq = []string{
 	`{"a":[1,null,{"x":true}],"b":"s"}`,
 	`[1,{"a":[2,3]},null]`,
 	`{"a/b":1,"m~n":{"a/b":[0]}}`,
-	"{\"n\":1.0,\"e\":1e400,\"z\":-0,\"big\":12345678901234567890123,\"s\":\"é\\n\u2068\u2069\u2027\u202a\"}",
+	"{\"n\":1.0,\"e\":1e400,\"z\":-0,\"big\":12345678901234567890123,\"s\":\"é\\n\u2068\u2069\u2027\u202a\u2038\u203f\"}",
 	`{"h":"<>&","<k>":{"x":"a<b"}}`,
 	`{}`,
 	`[]`,
-	" { \"a\" : [ 1 , 2 ] ,\n\t\"b\" : { } } ",
+	" { \"a\" : [ 1 , 2 ] ,\n\t\"b\" : { } , \"c\" : [ ] , \"d\" : [\n] } ",
 	`{"a":{"b":{"c":[{"d":1}]}}}`,
 	`[[1,2],[3]]`,
 	`{"b":2,"a":1,"c":{"z":1,"y":2}}`,
@@ -50,6 +50,7 @@ type AlphaCfg struct {
 	NoRootPtr   bool // leave "" out (legacy domain: no root add / copy from "")
 	EnsureLen   int  // >0: the alphabet is SigmaEnsure(EnsureLen, Values) instead
 	NoRootAdd   bool // drop add "" and copy from "" (not offered by the legacy package)
+	RootOnly    bool // keep only operations whose path is "" (whole-document add / replace)
 	InteriorNeg bool // also address the children of a last array element through the token -1 (negative index as an interior token)
 }
 
@@ -160,7 +161,11 @@ func respell(v *rj.Value) *rj.Value {
 }
 
 // Sigma builds the operation alphabet for the current reference state d.
-func Sigma(d *rj.Value, cfg *AlphaCfg) []r69.Op {
+func Sigma(d *rj.Value, cfg *AlphaCfg) []r69.Op { return SigmaFrom(d, cfg, nil) }
+
+// SigmaFrom: orig is the document the sequence started from (nil at the first level): test also
+// offers the value a location had THEN, spelled as it was in the source (a stale-cache probe).
+func SigmaFrom(d *rj.Value, cfg *AlphaCfg, orig *rj.Value) []r69.Op {
 	if cfg.EnsureLen > 0 {
 		return SigmaEnsure(cfg.EnsureLen, cfg.Values)
 	}
@@ -209,6 +214,11 @@ func Sigma(d *rj.Value, cfg *AlphaCfg) []r69.Op {
 				if p.Node.K != rj.Null {
 					ops = append(ops, r69.Op{Kind: "test", Path: p.P, Value: null, HasValue: true})
 				}
+				if orig != nil && (p.Node.K == rj.Obj || p.Node.K == rj.Arr) {
+					if ov, ok := r69.Resolve(orig, p.P, true); ok && !rj.Equal(ov, p.Node) {
+						ops = append(ops, r69.Op{Kind: "test", Path: p.P, Value: ov, HasValue: true})
+					}
+				}
 			} else {
 				ops = append(ops, r69.Op{Kind: "test", Path: p.P, Value: null, HasValue: true})
 				ops = append(ops, r69.Op{Kind: "test", Path: p.P, Value: patchValues[0], HasValue: true})
@@ -251,6 +261,9 @@ func Sigma(d *rj.Value, cfg *AlphaCfg) []r69.Op {
 	out := ops[:0]
 	for _, o := range ops {
 		if cfg.NoRootAdd && ((o.Kind == "add" && o.Path == "") || (o.Kind == "copy" && o.From == "")) {
+			continue
+		}
+		if cfg.RootOnly && o.Path != "" {
 			continue
 		}
 		k := r69.OpText(o)
